@@ -30,7 +30,7 @@ def run(tier, seed, replay=None):
 
     return interpcheck.run_interp_check(
         "C10", "c10", ("result", "trace"), COUNTS, tier, seed,
-        rule="16 directed histories (sharing through slices, append within and beyond capacity, 3-index slices, index at len, out-of-range and "
+        rule="22 directed histories (sharing through slices, append within and beyond capacity, 3-index slices, index at len, out-of-range and "
              "ill-typed indices, map missing / unhashable keys, delete, aliasing through assignment and calls, string index / slice / rebuild) "
              "then random histories of 3-12 steps over 3 slice, 2 map and 2 string variables: read, write (all boundary indices: -1, 0, len-1, "
              "len, len+1, string, nil, bool, slice), 2- and 3-index slicing, alias, += and + append, store through a callee's parameter, map "
